@@ -46,7 +46,7 @@ claim("C11", "proof",
       "bit sizes 254/255/64; for all n the Num2Bits/Bits2Num guard is 'constant and < 254'; for all k and each curve the LessThan range "
       "check holds iff 2^k - 1 <= p/2; a spelling is accepted iff its ASCII upper-casing is one of the three names. The hand-modelled "
       "guards are tied to the real passes on every (curve, name) incl. near-misses, all sizes 0..300 and non-constant sizes, and ~300 "
-      "spellings incl. non-ASCII look-alikes (in-process and through clap). Round 3: a range-check component instantiated in two ways must not count as a range check unless every instantiation qualifies (fix b3b1ebe); eight shapes in which the input does not feed the qualifying Num2Bits it seems to (an element of a component array addressed by the loop variable after the loop, another template on one branch, both inputs given as one array; fix ee9259e), and the pass itself is modelled (Model/LessThanPass.lean: C11_lessthan_reported, C11_lessthan_component, C11_lessthan_examined, C11_lessthan_candidates; all instantiations of a component are kept since fix 8d32e7f; the model's reports = the real pass's on 54 CFGs per run); the main component's instantiation is not analysed by the tool (known finding F-C11-main-component).",
+      "spellings incl. non-ASCII look-alikes (in-process and through clap). Round 3: a range-check component instantiated in two ways must not count as a range check unless every instantiation qualifies (fix b3b1ebe); eight shapes in which the input does not feed the qualifying Num2Bits it seems to (an element of a component array addressed by the loop variable after the loop, another template on one branch, both inputs given as one array; fix ee9259e), and the pass itself is modelled (Model/LessThanPass.lean: C11_lessthan_reported, C11_lessthan_component, C11_lessthan_examined, C11_lessthan_candidates; all instantiations of a component are kept since fix 8d32e7f; the model's reports = the real pass's on 54 CFGs per run); the instantiation of the main component is analysed since fix 1121aa8: 120 main components x 3 curves through the real binary against the table, the threshold and Curve.instReports (C11_every_instantiation).",
       "Lean kernel + standard axioms; the regex translator and the harness are trusted; clap is exercised only.",
       "Lean 4 proof over tables regenerated from source + complete finite correspondence of the guards", "5 (C11)")
 
